@@ -25,6 +25,9 @@ def dispatch(prop, tier, replay):
     if prop == "C05":
         from . import check_gen
         return check_gen.check_c05(tier).finish()
+    if prop == "C17":
+        from . import check_c17
+        return check_c17.check(tier).finish()
     if prop == "C18":
         from . import check_c18
         return check_c18.check(tier).finish()
